@@ -309,7 +309,7 @@ func implFuzz(h caseHead, raw []byte) map[string]any {
 	case r := <-rc:
 		res["outcome"] = r.kind
 		res["err"] = r.err
-	case <-time.After(60 * time.Second):
+	case <-time.After(240 * time.Second):
 		res["outcome"] = "timeout"
 	}
 	return res
